@@ -70,11 +70,21 @@ class C15(Check):
     def subspaces(self, tier):
         mw = spaces.multi_world()
         d = 5 if tier == "quick" else 6
-        return [SubSpace(f"multi/base+pe/d{d}", mw, ("X", "L"), BASE + PE, d)]
+        return [
+            SubSpace(f"multi/base+pe/d{d}", mw, ("X", "L"), BASE + PE, d),
+            # statically empty sources, and parents that have NOT been processed (their materializations hold no
+            # payload yet): a lock is a lock whether or not anything is cached on it (round 9)
+            SubSpace(f"multi/empty-unprocessed/d{d - 1}", mw, ("E1", "E", "D1", "EL1"), BASE + PE, d - 1),
+            # operands holding a materialization are left to C07: the harness rebuilds an operand on every
+            # application, which would itself put two equal materializations into one scenario
+            SubSpace(f"multi/twin/d{d - 1}", mw, ("X", "L"), tuple(o for o in spaces.MULTI_TWIN if "mat" not in repr(o[1:]) or o[0] == "mat"), d - 1),
+        ]
 
     def enter_state(self, ctx, sub, prog, rel, val):
         # fill the payloads of the parent's materializations so that sharing is observable
         self._parent_processed = False
+        if "unprocessed" in sub.label:
+            return
         if any(isinstance(n, Materialization) for n in walk.walk(rel)):
             try:
                 RealProcessor(ctx).process(rel)
@@ -118,9 +128,12 @@ class C15(Check):
         # locked nodes inviolate
         locked = locked_nodes(parent)
         out_nodes = list(walk.walk(rel))
+        # leaves the scenario itself supplies (a twin leaf brought in as a chain operand compares equal to its
+        # sibling without being a copy of it)
+        supplied = {id(n) for leaf in ctx.leaves.values() for n in walk.walk(leaf)}
         for n in locked:
             for m in out_nodes:
-                if m is not n and type(m) is type(n) and m == n:
+                if m is not n and type(m) is type(n) and m == n and id(m) not in supplied:
                     tr.violation("locked-node-copied", f"output tree holds an equal but distinct copy of locked node {n}")
                     return False
             if isinstance(n, Materialization):
@@ -139,6 +152,10 @@ class C15(Check):
         # content (of preferred-engine calls it is C03's business)
         if tr.op in self.pe_set:
             return False
+        if "unprocessed" in tr.sub.label:
+            # no Processor run at all in this sub-space: evaluating a sibling would cache payloads on the
+            # parent's materializations, which every later call of this state shares
+            return True
         try:
             out = RealProcessor(ctx).process(rel)
             got = ctx.rows_of(out)
